@@ -77,7 +77,7 @@ def gen_plan(rng, tier, index):
     kinds = rng.subset(RANDINT_FAULTS + SHUFFLE_FAULTS, 0.3, 1.0)
     return {'routine': routine, 'spec': spec, 'method': method, 'models': models, 'opts': opts,
             'faults': {'rate': rng.pick([0.0, 0.25, 0.5, 0.5]), 'kinds': kinds, 'k_targets': [2, 3, 4, 5, 6]},
-            'meta6': rng.chance(0.5), 'meta7': rng.chance(0.25)}
+            'meta6': rng.chance(0.5), 'meta7': rng.chance(0.25), 'meta8': rng.chance(0.012)}
 
 
 def directed_plans(tier):
@@ -94,7 +94,8 @@ def directed_plans(tier):
         plans.append({'routine': routine, 'spec': spec, 'method': 'cosine',
                       'models': [{'kind': 'fixed', 'fitter': 'mock', 'via_default': True},
                                  {'kind': 'weighted', 'fitter': 'regress', 'via_default': False}],
-                      'opts': dict(base_opts), 'faults': {'rate': 0.0, 'kinds': []}, 'meta6': False, 'meta7': True})
+                      'opts': dict(base_opts), 'faults': {'rate': 0.0, 'kinds': []}, 'meta6': False, 'meta7': True,
+                      'meta8': routine in ('eval_bootstrap', 'bootstrap_crossval', 'eval_dual_bootstrap')})
     return plans
 
 
@@ -967,6 +968,39 @@ def execute(plan, ctx):
                                   f'{routine}: two runs after np.random.seed(s) gave different results')
                     break
             ctx.probe('seeded_twice_identical')
+
+    # ---------- clause 7 across processes: same seed, fresh interpreters under two other PYTHONHASHSEEDs
+    if plan.get('meta8'):
+        d1, d2 = _hashseed_digest(plan, 97), _hashseed_digest(plan, 4242)
+        if d1 is not None and d2 is not None and d1 != 'none' and d2 != 'none':
+            if d1 != d2:
+                ctx.violation('eval_ref.clause7', f'{routine}:seed-not-reproducible-across-processes',
+                              f'{routine}: the same np.random.seed gives different results in two fresh interpreters that differ only '
+                              f'in PYTHONHASHSEED (rdm_descriptor={o["rdm_desc"]}, pattern_descriptor={o["pat_desc"]})')
+            ctx.probe('seeded_across_processes_identical')
+
+
+def _hashseed_digest(plan, hashseed):
+    """the routine after np.random.seed(s), real RNG, in a FRESH interpreter under another PYTHONHASHSEED:
+    digest of the result arrays (None if it could not run)"""
+    import json
+    import os
+    import subprocess
+    import sys
+    verif = os.path.dirname(os.path.dirname(os.path.abspath(__file__)))
+    code = ('import sys, json, hashlib, warnings; warnings.filterwarnings("ignore"); sys.path.insert(0, %r); import numpy as np; '
+            'from sim import runner; mod = runner.load_check("C04"); plan = json.loads(sys.stdin.read()); '
+            'np.random.seed(1234 + plan["opts"]["theta_seed"]); out = mod._run_unseamed(plan); '
+            'print("DIGEST", "none" if out is None else hashlib.sha256(b"".join(np.ascontiguousarray(x).tobytes() for x in out)).hexdigest())') % verif
+    env = dict(os.environ, PYTHONHASHSEED=str(hashseed), TQDM_DISABLE='1')
+    try:
+        r = subprocess.run([sys.executable, '-c', code], input=json.dumps(plan), capture_output=True, text=True, env=env, timeout=120)
+    except Exception:
+        return None
+    for ln in r.stdout.splitlines():
+        if ln.startswith('DIGEST '):
+            return ln.split()[1]
+    return None
 
 
 def _run_unseamed(plan):
